@@ -11,6 +11,7 @@ mod trainnew;
 mod gen;
 mod image;
 mod limits;
+mod mapimg;
 mod replay;
 mod rewrite;
 mod rng;
@@ -627,6 +628,11 @@ fn main() {
             let seed: u64 = args[2].parse().unwrap();
             let n: usize = args[3].parse().unwrap();
             trainnew::run(seed, n, &mut out);
+        }
+        "mapimg" => {
+            let seed: u64 = args[2].parse().unwrap();
+            let n: usize = args[3].parse().unwrap();
+            mapimg::run(seed, n, &mut out);
         }
         "limits" => {
             let seed: u64 = args[2].parse().unwrap();
